@@ -261,6 +261,15 @@ class Lifecycle(ThreadedMixin, Scenario):
         else:   # from_textfile
             n = self.params["n"]
             vals = [e[3] for e in ins]
+            opened = 0
+            for e in log:
+                if e[0] == "in" and e[1] == "S":
+                    opened += 1
+                    if opened > 1:
+                        # the records of one read are handed on one at a time, each after the consumer finished the previous one
+                        return Violation("took-next-before-downstream", kind, "", info)
+                elif e[0] == "out" and e[1] == "S":
+                    opened -= 1
             want = ["r%d\n" % i for i in range(n)]
             if len(set(vals)) != len(vals):
                 return Violation("double-loop", kind, "item-twice", info)
